@@ -47,3 +47,12 @@ func endpoint(i int, typ string, prio int) EndpointCfg {
 }
 
 func okResp(n int) Resp { return Resp{Status: 200, Chunks: []Chunk{{N: n}}} }
+
+// stmtYields switches on, for a share of the runs, scheduling points between the statements of the
+// instrumented request-path files (build.sh S1FILES): which sites yield and for how long is f(seed, site).
+func stmtYields(r R, p *Plan, chance int) {
+	if r.Chance(chance) {
+		p.StmtYieldPermille = pickS(r, []int{50, 200, 1000})
+		p.StmtYieldMaxNs = int64(pickS(r, []time.Duration{100 * time.Microsecond, time.Millisecond, 5 * time.Millisecond}))
+	}
+}
